@@ -22,6 +22,7 @@
 (***************************************************************************)
 EXTENDS Syntax
 
+
 Operation(op, args) == [op |-> op, args |-> args]
 
 \* group the top-level items of Read(bytes, TRUE) into operations
